@@ -566,6 +566,29 @@ impl Kernel {
                 );
             }
         }
+        // Refused at submission time (the prep stage: a path that is too long,
+        // an address that cannot be read, ...): nothing happens, the error
+        // completion is posted at once and, without SUBMIT_ALL, the batch ends.
+        let refuse = ud > 3
+            && !matches!(rec.class, OpClass::Close | OpClass::Cancel | OpClass::MsgRing)
+            && self.cfg.p_prep_fail > 0
+            && tape::chance(site::FAULT, self.cfg.p_prep_fail, 100);
+        if refuse {
+            stats::inc(C::fault_prep_refused);
+            let res = -tape::pick(site::FAULT, &[libc::ENAMETOOLONG, libc::EFAULT, libc::EOVERFLOW]);
+            ev!("k refuse k{kid} at submission: {}", errno_name(-res));
+            for p in pins {
+                alloc::unpin(p);
+            }
+            rec.cqes.push((res, 0));
+            rec.wrote.push(Vec::new());
+            rec.done = true;
+            self.records.push(rec);
+            self.prep_refused = true;
+            stats::inc(C::total_ops_completed);
+            self.post(r, Cqe { user_data: ud, res, flags: 0 });
+            return;
+        }
         self.records.push(rec);
         self.rings[r].inflight_push(kid, pins);
     }
@@ -611,7 +634,11 @@ impl Kernel {
 
     /// Operations of ring `r` that can receive a completion now.
     pub fn completable(&self, r: usize) -> Vec<u32> {
-        self.rings[r].inflight_kids()
+        let mut kids = self.rings[r].inflight_kids();
+        if !self.silent_by_op.is_empty() {
+            kids.retain(|k| !self.silent_by_op.contains(&self.records[*k as usize].by_op));
+        }
+        kids
     }
 
     /// Complete one drawn in-flight operation of ring `r`.
@@ -807,6 +834,7 @@ impl Kernel {
             for i in 0..new {
                 let idx = p.seen_tail.wrapping_add(i);
                 let e = unsafe { (p.ring_addr as *const Buf).add((idx & mask) as usize).read() };
+                p.last_entry = Some((e.addr as usize, e.bid));
                 if p.base.is_none() {
                     // Initial fill: learn the geometry from entry 0.
                     if e.bid == 0 {
@@ -932,7 +960,12 @@ impl Kernel {
         let name = op_name(rec.opcode);
         let sqe = rec.sqe;
         let ud = rec.user_data;
-        let fd = sqe.fd();
+        // A signalfd keeps its read semantics when it lives in a direct slot.
+        let fd = if sqe.flags() & SQE_FIXED_FILE != 0 {
+            self.rings[r].slot_src.get(&(sqe.fd() as u32)).copied().unwrap_or(sqe.fd())
+        } else {
+            sqe.fd()
+        };
         let bufsel = sqe.flags() & SQE_BUFFER_SELECT != 0;
 
         // Second step of a zero-copy send.
@@ -1195,8 +1228,11 @@ impl Kernel {
                         Some(src) if src >= FD_BASE && !self.fds.get(&src).is_some_and(|i| i.open) => {
                             res = -libc::EBADF;
                         }
-                        Some(_) => match self.alloc_slot(r, kid) {
+                        Some(src) => match self.alloc_slot(r, kid) {
                             Ok(slot) => {
+                                if self.full_only.contains(&src) {
+                                    self.rings[r].slot_src.insert(slot, src);
+                                }
                                 self.put("descriptor array", sqe.addr() as usize, &(slot as i32).to_ne_bytes(), name);
                                 self.records[kid as usize].fds_issued.push((slot as i32, true));
                                 res = 1;
@@ -1215,6 +1251,11 @@ impl Kernel {
                     st[4..8].copy_from_slice(&4096u32.to_ne_bytes());
                     st[28..30].copy_from_slice(&(0o100_644u16).to_ne_bytes());
                     st[40..48].copy_from_slice(&(1000 + u64::from(kid)).to_ne_bytes()); // stx_size
+                    // Four different timestamps: atime, btime, ctime, mtime.
+                    for (slot, base) in [(64usize, 1_000_000i64), (80, 2_000_000), (96, 3_000_000), (112, 4_000_000)] {
+                        st[slot..slot + 8].copy_from_slice(&(base + i64::from(kid)).to_ne_bytes());
+                        st[slot + 8..slot + 12].copy_from_slice(&(7u32 + slot as u32).to_ne_bytes());
+                    }
                     self.put("statx result", sqe.off() as usize, &st, name);
                     wrote = st;
                     res = 0;
